@@ -48,7 +48,7 @@ func (r *vrec) Write(p []byte) (int, error) {
 	return len(p), nil
 }
 
-const nWraps = 8
+const nWraps = 9
 
 var tagNames = []string{"a", "b", "c", "d", "e", "f", "g", "h", "i", "j", "k", "l"}
 
@@ -79,7 +79,11 @@ func (b *builder) build(depth int) *Spec {
 		if k.Wrap == 3 {
 			k.Once = templ.NewOnceHandle()
 		}
-		if (k.Wrap == 3 || k.Wrap == 4 || k.Wrap == 5) && k.Block {
+		if k.Wrap == 8 {
+			// a handle with its own component: a slot-bearing component called without a block
+			k.Once = templ.NewOnceHandle(templ.WithComponent(Slot(id)))
+		}
+		if (k.Wrap == 3 || k.Wrap == 4 || k.Wrap == 5 || k.Wrap == 8) && k.Block {
 			b.leakFn = true // a hand-written callee that does not consume the shared slot
 		}
 		if k.Block {
@@ -96,28 +100,46 @@ func (b *builder) build(depth int) *Spec {
 
 // ref is the reference renderer: children are lexically scoped - a callee gets the block
 // written at its call site, or nothing.
-func ref(s *Spec) string {
+//
+// Blocks are rendered each time their slot is rendered (a callee repeating its slot renders
+// the block twice), and a once handle renders at most once per render.
+func ref(s *Spec) string { return refWith(s, map[*templ.OnceHandle]bool{}) }
+
+func refWith(s *Spec, seen map[*templ.OnceHandle]bool) string {
 	out := "<n>"
 	for _, k := range s.Kids {
-		blk := ""
-		if k.Block {
-			blk = "<b>" + k.Tag + "</b>" + ref(k.Inner)
+		blk := func() string {
+			if !k.Block {
+				return ""
+			}
+			return "<b>" + k.Tag + "</b>" + refWith(k.Inner, seen)
 		}
 		switch k.Wrap {
 		case 0:
-			out += "<s>" + k.Tag + ":" + blk + "</s>"
+			out += "<s>" + k.Tag + ":" + blk() + "</s>"
 		case 1:
 			out += "<g>" + k.Tag + "</g>"
 		case 2:
-			out += "<t>" + blk + "|" + blk + "</t>"
-		case 3, 4:
-			out += blk // a fresh once handle renders its block once; flush renders its block
+			first := blk()
+			out += "<t>" + first + "|" + blk() + "</t>"
+		case 3:
+			if !seen[k.Once] {
+				seen[k.Once] = true
+				out += blk()
+			}
+		case 4:
+			out += blk() // flush renders its block
 		case 5:
 			out += "<fi>" + k.Tag + "</fi>"
 		case 6:
-			out += "<fs>" + k.Tag + ":" + blk + "</fs>"
+			out += "<fs>" + k.Tag + ":" + blk() + "</fs>"
 		case 7:
 			out += "<s>" + k.Tag + ":</s><g>" + k.Tag + "</g>"
+		case 8:
+			if !seen[k.Once] {
+				seen[k.Once] = true
+				out += "<s>" + k.Tag + ":</s>" // the handle's own component, called without a block
+			}
 		}
 	}
 	return out + "</n>"
@@ -191,6 +213,14 @@ func (m *slotModel) tree(s *Spec) string {
 			out += "<s>" + k.Tag + ":" + m.block(own) + "</s>"
 			m.cur = nil
 			out += "<g>" + k.Tag + "</g>"
+		case 8:
+			if !m.seen[k.Once] {
+				m.seen[k.Once] = true
+				saved := m.cur
+				m.cur = nil
+				out += "<s>" + k.Tag + ":</s>"
+				m.cur = saved
+			}
 		}
 	}
 	return out + "</n>"
